@@ -73,7 +73,7 @@ var registry = []*HarnessSpec{
 	{Prop: "C02", Name: "zzH02parse", Pkg: pkgConfig, Tier: "quick", Bounds: "0..3 interface groups of 1-2 names from a pool of three; debug address set/unset, resolvable or not; decoder failing or not"},
 	{Prop: "C02", Name: "zzH02pref64", Pkg: pkgConfig, Tier: "quick", Bounds: "one pref64 stanza: prefix absent / empty / unparsable / any IPv4 or IPv6 prefix of any length"},
 	{Prop: "C02", Name: "zzH02dnssl", Pkg: pkgConfig, Tier: "quick", Bounds: "one dnssl stanza: lifetime of every shape, 0..3 names from three tokens"},
-	{Prop: "C19", Name: "zzH19a", Pkg: pkgNetstate, Tier: "quick", Params: map[string]int{"subs": 2, "changes": 3, "subs@thorough": 3, "changes@thorough": 4}, Bounds: "2 (3) subscribers with any non-empty 7-bit mask on one of two interfaces; 3 (4) changes, each any non-zero 7-bit value, on either interface"},
+	{Prop: "C19", Name: "zzH19a", Pkg: pkgNetstate, Tier: "quick", Params: map[string]int{"subs": 2, "changes": 3, "subs@thorough": 3, "changes@thorough": 3}, Bounds: "2 (3) subscribers with any non-empty 7-bit mask on one of two interfaces; 3 changes, each any non-zero 7-bit value, on either interface"},
 	{Prop: "C19", Name: "zzH19b", Pkg: pkgNetstate, Tier: "quick", Bounds: "10 matching undrained events"},
 	{Prop: "C19", Name: "zzH19c", Pkg: pkgNetstate, Tier: "quick", Params: map[string]int{"subs": 2, "subs@thorough": 3}, Bounds: "2 (3) subscribers, 0..2 notifications before watching ends"},
 	{Prop: "C19", Name: "zzH19d", Pkg: pkgNetstate, Tier: "quick", Explore: true, Sched: 5000, Race: true, Bounds: "one early and one late subscriber; 2 notifications; the late Subscribe released at any of 4 points and scheduled at any later scheduling point (all schedules: the budget of 5000 is not reached); lock discipline on Watcher.m decided on every path; native validation under the Go race detector"},
